@@ -114,12 +114,12 @@ Definition line_start_position (m : metrics) (t : text) (base : pos) : res pos :
   let (pre, suf) := split_before t (byte base) in
   Ok (mkpos (ls_scan m (rev pre) suf) (line base) 0).
 
-(** [while p.byte != target { p = next_position(p).expect(..) }] (metrics.rs:177-183 as repaired) *)
+(** [while p.byte < target { p = next_position(p).expect(..) }] *)
 Fixpoint walk_to (fuel : nat) (m : metrics) (t : text) (p : pos) (target : nat) : res pos :=
   match fuel with
   | 0 => Fuel
   | S f =>
-    if byte p =? target then Ok p
+    if target <=? byte p then Ok p
     else do o <- next_position m t p;
          match o with
          | None => Panic                            (* .expect("next position is guaranteed") *)
@@ -127,8 +127,14 @@ Fixpoint walk_to (fuel : nat) (m : metrics) (t : text) (p : pos) (target : nat) 
          end
   end.
 
-(** metrics.rs:156-199. The column of the position before a tab or before a line break is
-    measured forward from the start of its line. *)
+(** [position_in_line] (metrics.rs, added by the repair): the position with the given byte
+    and line, its column measured forward from the start of its line. *)
+Definition position_in_line (m : metrics) (t : text) (p : pos) : res pos :=
+  do ls <- line_start_position m t p;
+  walk_to (S (length t)) m t ls (byte p).
+
+(** metrics.rs previous_position. The column of the position before a tab or before a line
+    break is measured forward from the start of its line. *)
 Definition previous_position (m : metrics) (t : text) (base : pos) : res (option pos) :=
   match split_at t (byte base) with
   | None => Panic                                   (* text[..base.byte] *)
@@ -136,15 +142,12 @@ Definition previous_position (m : metrics) (t : text) (base : pos) : res (option
     let rp := rev pre in
     if ends_lb m rp then
       do l <- sub_chk (line base) 1;
-      let e := mkpos (byte base - lb_len m) l 0 in
-      do ls <- line_start_position m t e;
-      do r <- walk_to (S (length t)) m t ls (byte e);
+      do r <- position_in_line m t (mkpos (byte base - lb_len m) l 0);
       Ok (Some r)
     else match rp with
          | [] => Ok None
          | Tab :: _ =>
-           do ls <- line_start_position m t base;
-           do r <- walk_to (S (length t)) m t ls (byte base - 1);
+           do r <- position_in_line m t (mkpos (byte base - 1) (line base) 0);
            Ok (Some r)
          | c :: _ =>
            do cl <- sub_chk (col base) (cwidth c);
